@@ -1,9 +1,504 @@
-"""Rules over the emission model (engine E1).  Filled in by emit.py."""
+"""Rules over the emission model (engine E1): AST queries on the skeletons the code generator can
+emit, for every visitor and every valuation of its flags."""
 
 from __future__ import annotations
 
+import ast
+import builtins
+import keyword
+import multiprocessing as mp
+import os
+import typing as t
+
 from .core import Ctx
+from .emit import EXPR_WRAP
+from .emit import EmitModel
+from .emit import Hole
+from .emit import Path
+from .emit import Skeleton
+from .emit import parse_skeleton
+from .emit import render
+from .srcmodel import AnalysisError
+from .srcmodel import Repo
+
+STMT_HELPERS = ["macro_body", "enter_frame", "leave_frame", "pull_dependencies", "write_commons", "return_buffer_contents", "pop_assign_tracking", "blockvisit", "simple_write", "buffer"]
+EXPR_HELPERS = ["macro_def", "_filter_test_common"]
+FRAGMENT_HELPERS = {"signature": "__f__(__x__{})"}
+
+_CACHE: dict[tuple[str, str, int], dict[str, list[tuple[Path, Skeleton]]]] = {}
+_FORK_MODELS: dict[tuple[str, str], EmitModel] = {}
+
+
+def entry_kind(model: EmitModel, entry: str) -> str:
+    if entry in STMT_HELPERS:
+        return "stmt"
+    if entry in EXPR_HELPERS or entry in FRAGMENT_HELPERS:
+        return "expr"
+    if entry.startswith("visit_"):
+        mro = model.node_mro(entry[6:])
+        if "Stmt" in mro or "Template" in mro:
+            return "stmt"
+        return "expr"
+    return "stmt"
+
+
+def _work(job: tuple[str, str, str, int]) -> tuple[str, t.Any]:
+    root, gen, entry, loop_max = job
+    try:
+        model = _FORK_MODELS.get((root, gen))
+        if model is None:
+            model = EmitModel(Repo(root), gen)
+            _FORK_MODELS[(root, gen)] = model
+        paths = model.run_paths(entry, loop_max=loop_max)
+        kind = entry_kind(model, entry)
+        out = []
+        for p in paths:
+            sk = render(p)
+            if entry in FRAGMENT_HELPERS:
+                EXPR_WRAP[entry] = FRAGMENT_HELPERS[entry]
+            parse_skeleton(sk, entry, kind == "stmt")
+            sk.tree = None
+            out.append((p, sk))
+        return entry, out
+    except AnalysisError as e:
+        return entry, f"ANALYSIS-ERROR {e}"
+    except Exception as e:  # pragma: no cover
+        import traceback
+
+        return entry, f"ANALYSIS-ERROR {type(e).__name__}: {e}\n{traceback.format_exc()[-600:]}"
+
+
+def all_entries(model: EmitModel) -> list[str]:
+    ents = sorted(model.visitor_entries())
+    for h in STMT_HELPERS + EXPR_HELPERS + list(FRAGMENT_HELPERS):
+        if model.method(h) is not None:
+            ents.append(h)
+    return ents
+
+
+def get_paths(ctx: Ctx, entries: list[str] | None = None, gen: str = "compiler:CodeGenerator") -> dict[str, list[tuple[Path, Skeleton]]]:
+    loop_max = 2 if ctx.tier == "thorough" else 1
+    model = EmitModel(ctx.repo, gen)
+    wanted = entries if entries is not None else all_entries(model)
+    key = (ctx.repo.root, gen, loop_max)
+    cache = _CACHE.setdefault(key, {})
+    disk = _disk_cache_path(ctx, gen, loop_max)
+    if not cache and disk is not None and os.path.exists(disk):
+        try:
+            import pickle
+
+            with open(disk, "rb") as f:
+                cache.update(pickle.load(f))
+            ctx.notes.append("emission paths reused from the digest-keyed cache (same source digests of compiler/nodes/nativetypes and of the engine)")
+        except Exception:
+            cache.clear()
+    todo = [e for e in wanted if e not in cache]
+    _FORK_MODELS[(ctx.repo.root, gen)] = model  # inherited by forked workers
+    if todo:
+        jobs = [(ctx.repo.root, gen, e, loop_max) for e in todo]
+        # big ones first
+        jobs.sort(key=lambda j: {"visit_Template": 0, "visit_Filter": 1, "visit_For": 2, "visit_AssignBlock": 3, "macro_body": 4, "visit_Call": 5}.get(j[2], 9))
+        nproc = min(len(jobs), os.cpu_count() or 4, 16)
+        if nproc > 1:
+            with mp.get_context("fork").Pool(nproc) as pool:
+                results = pool.map(_work, jobs, chunksize=1)
+        else:
+            results = [_work(j) for j in jobs]
+        for entry, res in results:
+            if isinstance(res, str):
+                raise AnalysisError(f"{entry}: {res}")
+            cache[entry] = res
+        if disk is not None:
+            try:
+                import pickle
+
+                os.makedirs(os.path.dirname(disk), exist_ok=True)
+                tmp = f"{disk}.{os.getpid()}.tmp"
+                with open(tmp, "wb") as f:
+                    pickle.dump(cache, f, protocol=pickle.HIGHEST_PROTOCOL)
+                os.replace(tmp, disk)
+                # keep the cache directory small
+                d = os.path.dirname(disk)
+                files = sorted((os.path.join(d, x) for x in os.listdir(d) if x.endswith(".pkl")), key=os.path.getmtime)
+                for old in files[:-6]:
+                    os.remove(old)
+            except Exception:
+                pass
+    return {e: cache[e] for e in wanted}
+
+
+def _disk_cache_path(ctx: Ctx, gen: str, loop_max: int) -> str | None:
+    """Cache file keyed by the digests of every source the emission model consults and of the
+    engine itself; any edit to one of them changes the key."""
+    if os.environ.get("VERIF_NO_CACHE"):
+        return None
+    import hashlib
+
+    h = hashlib.sha256()
+    for mod in ("compiler", "nodes", "nativetypes", "meta", "runtime", "idtracking"):
+        h.update(ctx.repo.module(mod).sha.encode())
+    here = os.path.dirname(os.path.abspath(__file__))
+    for fn in ("emit.py", "emitrules.py", "srcmodel.py"):
+        with open(os.path.join(here, fn), "rb") as f:
+            h.update(hashlib.sha256(f.read()).digest())
+    h.update(f"{gen}|{loop_max}".encode())
+    return os.path.join(os.path.dirname(here), ".cache", f"emit_{h.hexdigest()[:24]}.pkl")
+
+
+def reparse(sk: Skeleton, entry: str, kind: str) -> ast.AST | None:
+    if sk.tree is None and sk.error is None:
+        if entry in FRAGMENT_HELPERS:
+            EXPR_WRAP[entry] = FRAGMENT_HELPERS[entry]
+        parse_skeleton(sk, entry, kind == "stmt")
+    return sk.tree
+
+
+def flags_of(p: Path) -> dict[str, t.Any]:
+    return {k: v for k, v in p.decisions.items() if not k.startswith("raises@")}
+
+
+def short_flags(p: Path, n: int = 6) -> str:
+    items = [f"{k}={v}" for k, v in list(flags_of(p).items())[:n]]
+    return ", ".join(items)
+
+
+# ---------------------------------------------------------------------------- C01
+GENERATOR_NAMES = {
+    "context", "environment", "resolve", "undefined", "concat", "cond_expr_undefined", "missing", "parent_template", "template",
+    "included_template", "gen", "agen", "event", "caller", "loop", "reciter", "loop_render_func", "depth", "fiter", "name", "blocks",
+    "debug_info", "_loop_vars", "_block_vars", "root", "macro", "unused", "parent_block", "self",
+}
 
 
 def c01_skeleton_rules(ctx: Ctx) -> None:
-    return None
+    repo = ctx.repo
+    ctx.rule("R7", "every skeleton the code generator can emit (visitor x flag valuation x loop unrolling) parses as Python, indentation returns to its start level, and its free names are runtime exports, generator-bound names or builtins")
+    exported = set(repo.const("runtime:exported")) | set(repo.const("runtime:async_exported"))
+    total = 0
+    nerr = 0
+    for gen in ("compiler:CodeGenerator", "nativetypes:NativeCodeGenerator"):
+        model = EmitModel(repo, gen)
+        entries = None if gen.startswith("compiler") else ["visit_Output"]
+        res = get_paths(ctx, entries, gen)
+        for entry, items in sorted(res.items()):
+            kind = entry_kind(model, entry)
+            seen_err: set[str] = set()
+            for p, sk in items:
+                if p.outcome not in ("normal", "CompilerExit"):
+                    continue
+                total += 1
+                where = f"{gen.split(':')[0]}:{gen.split(':')[1]}.{entry}"
+                if sk.error is not None:
+                    nerr += 1
+                    sig = sk.error.split("(")[0]
+                    if sig in seen_err:
+                        continue
+                    seen_err.add(sig)
+                    ctx.bad(where, f"unparseable emission: {sig.strip()}",
+                            f"{entry} can emit code CPython rejects ({sk.error}) under [{short_flags(p)}]:\n{sk.text[:300]}", f"src/jinja2/{gen.split(':')[0]}.py")
+                    continue
+                if p.final_indent != 0 and entry != "visit_Template":
+                    if "indent" not in seen_err:
+                        seen_err.add("indent")
+                        ctx.bad(where, f"indentation not restored ({p.final_indent:+d})", f"{entry} leaves the indentation level changed by {p.final_indent:+d} under [{short_flags(p)}]", f"src/jinja2/{gen.split(':')[0]}.py")
+                    continue
+                tree = reparse(sk, entry, kind)
+                free = _free_names(tree) if tree is not None else set()
+                bad = {n for n in free if not _name_ok(n, exported)}
+                if bad:
+                    key = "names:" + ",".join(sorted(bad))
+                    if key not in seen_err:
+                        seen_err.add(key)
+                        ctx.bad(where, f"unbound name(s) {sorted(bad)}", f"{entry} emits code reading {sorted(bad)}, which the generated module neither imports from jinja2.runtime nor binds itself (NameError at render time)", f"src/jinja2/{gen.split(':')[0]}.py")
+                    continue
+                ctx.ok(f"{gen}:{entry}:{total}", detail={"entry": entry, "flags": short_flags(p, 4), "skeleton": sk.text[:200]} if total % 997 == 1 else None, trivial=False)
+    ctx.floor("skeletons parsed", total, 3000)
+    ctx.notes.append(f"R7: {total} skeletons, {nerr} unparseable")
+
+    ctx.rule("R9", "template-controlled text reaches the generated source only quoted (repr) or behind a generator prefix / identifier check; raw positions are the reviewed extension-only nodes")
+    allowed_raw = {
+        "visit_Keyword": "key of a call keyword: python keywords are routed through the kwarg_workaround branch of signature(); the lexer guarantees an identifier",
+        "visit_EvalContextModifier": "option name of an EvalContextModifier node, only created by the parser with the literal 'autoescape' or by extensions",
+        "visit_ScopedEvalContextModifier": "same as visit_EvalContextModifier",
+        "visit_EnvironmentAttribute": "extension-only node (attribute name chosen by extension code)",
+        "visit_ExtensionAttribute": "extension-only node",
+        "visit_InternalName": "created by Parser.free_identifier as fi<n>",
+        "visit_Template": "block_<name> function names (prefix + lexer-validated identifier) and import aliases",
+        "visit_Block": "block name inside quotes / prefix",
+        "signature": "extra kwargs supplied by the compiler itself",
+        "visit_Call": "extra kwargs supplied by the compiler itself",
+        "visit_Filter": "", "visit_Test": "", "_filter_test_common": "",
+    }
+    model = EmitModel(repo)
+    res = get_paths(ctx)
+    n = 0
+    for entry, items in sorted(res.items()):
+        raw_labels: set[str] = set()
+        for p, sk in items:
+            for i, h in enumerate(sk.holes):
+                if h.kind == "tmpl":
+                    # is it inside a string literal of the skeleton? then harmless
+                    marker = f"__t{i + 1}__"
+                    if _inside_string(sk.text, marker):
+                        continue
+                    raw_labels.add(h.label)
+        for lab in sorted(raw_labels):
+            n += 1
+            ctx.check(entry in allowed_raw, f"{entry}:{lab}", f"compiler:CodeGenerator.{entry}", f"raw template text `{lab}`",
+                      f"{entry} writes the template-controlled string `{lab}` into the generated source unquoted: a crafted name becomes Python code or a SyntaxError", "src/jinja2/compiler.py", detail={"entry": entry, "value": lab})
+    ctx.floor("raw template-text positions", n, 3)
+    sg = repo.func("compiler:CodeGenerator.signature")
+    ctx.check("is_python_keyword" in ast.unparse(sg.node) and "kwarg_workaround" in ast.unparse(sg.node), "kwarg_workaround", "compiler:CodeGenerator.signature", "python keyword workaround", "keyword arguments named like Python keywords must go through the **{...} workaround", sg.loc())
+
+
+def _inside_string(text: str, marker: str) -> bool:
+    idx = text.find(marker)
+    if idx < 0:
+        return True
+    line = text[text.rfind("\n", 0, idx) + 1: idx]
+    return (line.count("'") - line.count("\\'")) % 2 == 1 or (line.count('"') % 2 == 1)
+
+
+def _free_names(tree: ast.AST) -> set[str]:
+    bound: set[str] = set()
+    used: set[str] = set()
+    for n in ast.walk(tree):
+        if isinstance(n, ast.Name):
+            (bound if isinstance(n.ctx, (ast.Store, ast.Del)) else used).add(n.id)
+        elif isinstance(n, (ast.FunctionDef, ast.AsyncFunctionDef)):
+            bound.add(n.name)
+            for a in n.args.args + n.args.kwonlyargs + n.args.posonlyargs:
+                bound.add(a.arg)
+            if n.args.vararg:
+                bound.add(n.args.vararg.arg)
+            if n.args.kwarg:
+                bound.add(n.args.kwarg.arg)
+        elif isinstance(n, ast.alias):
+            bound.add(n.asname or n.name.split(".")[0])
+        elif isinstance(n, ast.ExceptHandler) and n.name:
+            bound.add(n.name)
+    return used - bound
+
+
+def _name_ok(n: str, exported: set[str]) -> bool:
+    if n in exported or n in GENERATOR_NAMES or hasattr(builtins, n):
+        return True
+    if n.startswith("__") and n.endswith("__"):
+        return True  # holes and wrapper names
+    if n.startswith(("t_", "l_", "block_", "fi")):
+        return True
+    return keyword.iskeyword(n)
+
+
+# ------------------------------------------------------------------- other props
+def c17_skeleton_rules(ctx: Ctx) -> None:
+    ctx.rule("R1", "emitted code never applies attribute or subscript syntax to a recursive hole (template value); the only accessors are environment.getattr / environment.getitem and the slice form")
+    res = get_paths(ctx)
+    model = EmitModel(ctx.repo)
+    n = 0
+    for entry, items in sorted(res.items()):
+        kind = entry_kind(model, entry)
+        bad_attr = set()
+        for p, sk in items:
+            if sk.error is not None or p.outcome != "normal":
+                continue
+            tree = reparse(sk, entry, kind)
+            if tree is None:
+                continue
+            for node in ast.walk(tree):
+                if isinstance(node, ast.Attribute) and isinstance(node.value, ast.Name) and node.value.id.startswith("__E"):
+                    bad_attr.add(f".{node.attr}")
+                if isinstance(node, ast.Subscript) and isinstance(node.value, ast.Name) and node.value.id.startswith("__E") and not isinstance(node.slice, ast.Slice):
+                    if not (isinstance(node.slice, ast.Name) and node.slice.id.startswith("__E") and entry == "visit_Getitem"):
+                        bad_attr.add("[...]")
+            n += 1
+        if entry == "visit_Getitem":
+            # the slice form visits node.arg (a Slice node) inside the brackets: allowed only when dominated by isinstance(node.arg, nodes.Slice)
+            for p, sk in items:
+                if "[__E" in sk.text:
+                    ok = any("isinstance(node.arg, Slice)" in k and v for k, v in p.decisions.items())
+                    if not ok:
+                        bad_attr.add("[...] (non-slice)")
+            bad_attr.discard("[...]")
+        ctx.check(not bad_attr, f"{entry}", f"compiler:CodeGenerator.{entry}", f"direct access {sorted(bad_attr)} on a template value",
+                  f"{entry} emits {sorted(bad_attr)} applied directly to a template expression: the access bypasses environment.getattr/getitem and thus the sandbox", "src/jinja2/compiler.py")
+    ctx.floor("skeletons scanned for direct access", n, 3000)
+
+
+def c18_skeleton_rules(ctx: Ctx) -> None:
+    ctx.rule("R5", "in every skeleton with `sandboxed` on, a call whose callee is a template value is environment.call(context, ...); with it off, context.call(...)")
+    res = get_paths(ctx, ["visit_Call", "visit_CallBlock"])
+    model = EmitModel(ctx.repo)
+    n = 0
+    for entry, items in res.items():
+        for p, sk in items:
+            if sk.error is not None or p.outcome != "normal" or p.decisions.get("optimizer folds this node"):
+                continue
+            sandboxed = p.decisions.get("self.environment.sandboxed")
+            if sandboxed is None:
+                continue
+            n += 1
+            has_env = "environment.call(context, " in sk.text
+            has_ctx = "context.call(" in sk.text.replace("environment.call(context, ", "")
+            ok = (has_env and not has_ctx) if sandboxed else (has_ctx and not has_env)
+            if not ok:
+                ctx.bad(f"compiler:CodeGenerator.{entry}", f"sandboxed={sandboxed}: wrong call form", f"with sandboxed={sandboxed} {entry} emits `{sk.text.strip()[:120]}` under [{short_flags(p)}]", "src/jinja2/compiler.py")
+                break
+        else:
+            ctx.ok(f"{entry}", detail={"entry": entry, "paths": len(items)})
+    ctx.floor("call skeletons", n, 500)
+
+
+# ---------------------------------------------------------------------------- C36
+DATA_ITER_WRAPPERS = {"auto_aiter", "AsyncLoopContext", "LoopContext"}
+
+
+def _own_level(tree: ast.AST) -> t.Iterator[ast.AST]:
+    """Nodes of the wrapper function's own level: nested defs emitted by the visitor are skipped."""
+    top = tree.body[0] if isinstance(tree, ast.Module) and tree.body else tree  # type: ignore[attr-defined]
+    todo = list(ast.iter_child_nodes(top))
+    while todo:
+        n = todo.pop()
+        yield n
+        if isinstance(n, (ast.FunctionDef, ast.AsyncFunctionDef, ast.Lambda)):
+            continue
+        todo.extend(ast.iter_child_nodes(n))
+
+
+def _parents(tree: ast.AST) -> dict[int, ast.AST]:
+    par: dict[int, ast.AST] = {}
+    for p in ast.walk(tree):
+        for c in ast.iter_child_nodes(p):
+            par[id(c)] = p
+    return par
+
+
+def c36_skeleton_rules(ctx: Ctx) -> None:
+    ctx.rule("R1", "async skeletons: every `async for` over a generator the engine itself created iterates a named generator inside try/finally: await <name>.aclose(); generators are never created inline in the loop header")
+    res = get_paths(ctx)
+    model = EmitModel(ctx.repo)
+    n = 0
+    for entry, items in sorted(res.items()):
+        kind = entry_kind(model, entry)
+        if kind != "stmt":
+            continue
+        reported: set[str] = set()
+        for p, sk in items:
+            if sk.error is not None or p.outcome != "normal" or "async for" not in sk.text:
+                continue
+            tree = reparse(sk, entry, kind)
+            if tree is None:
+                continue
+            par = _parents(tree)
+            for node in ast.walk(tree):
+                if not isinstance(node, ast.AsyncFor):
+                    continue
+                n += 1
+                it = node.iter
+                if isinstance(it, ast.Name) and it.id.startswith(("__E", "__h", "__i")):
+                    continue  # template data
+                if isinstance(it, ast.Call):
+                    callee = ast.unparse(it.func)
+                    if callee in DATA_ITER_WRAPPERS:
+                        # data iterables wrapped for async iteration - but an engine generator
+                        # may hide inside: t_1(auto_aiter(x)) as argument
+                        inner = [a for a in it.args if isinstance(a, ast.Call) and ast.unparse(a.func) not in DATA_ITER_WRAPPERS and not ast.unparse(a.func).startswith("__")]
+                        if not inner:
+                            continue
+                        callee = ast.unparse(inner[0].func)
+                    key = f"inline generator {callee.split('(')[0][:40]}"
+                    key = "inline generator <loop filter function>" if callee.startswith("t_") else key
+                    if key not in reported:
+                        reported.add(key)
+                        ctx.bad(f"compiler:CodeGenerator.{entry}", key,
+                                f"{entry} (async) iterates `{ast.unparse(it)[:80]}` directly in the loop header: the async generator has no name and no try/finally aclose(), so when the consumer stops early or the task is cancelled it is left to the garbage collector",
+                                "src/jinja2/compiler.py")
+                    continue
+                if isinstance(it, ast.Name):
+                    name = it.id
+                    ok = False
+                    cur: ast.AST | None = node
+                    while cur is not None:
+                        cur = par.get(id(cur))
+                        if isinstance(cur, ast.Try) and any(isinstance(x, ast.Await) and ast.unparse(x.value) == f"{name}.aclose()" for fb in cur.finalbody for x in ast.walk(fb)):
+                            ok = True
+                            break
+                    if not ok and f"close:{name}" not in reported:
+                        reported.add(f"close:{name}")
+                        ctx.bad(f"compiler:CodeGenerator.{entry}", f"`{name}` iterated without finally aclose",
+                                f"{entry} (async) iterates the generator `{name}` outside a try/finally that awaits {name}.aclose()", "src/jinja2/compiler.py")
+                    elif ok:
+                        ctx.ok(f"{entry}:{name}:{n}", detail={"entry": entry, "generator": name, "skeleton": sk.text[:240]} if n % 50 == 1 else None)
+    ctx.floor("async for loops in skeletons", n, 40)
+
+
+# ---------------------------------------------------------------------------- C05
+def c05_yield_rule(ctx: Ctx, rid: str = "R5") -> None:
+    ctx.rule(rid, "yield discipline: a statement visitor emits `yield` / `yield from` at its own function level only on paths where the frame is unbuffered (frame.buffer is None); in macro / set / filter / call bodies output goes to the buffer")
+    res = get_paths(ctx)
+    model = EmitModel(ctx.repo)
+    n = 0
+    for entry, items in sorted(res.items()):
+        kind = entry_kind(model, entry)
+        if kind != "stmt" or entry in ("visit_Template", "write_commons", "macro_body", "blockvisit"):
+            continue
+        fi = model.method(entry)
+        if fi is None or "frame" not in [a.arg for a in fi.node.args.args]:  # type: ignore[attr-defined]
+            continue
+        bad: dict[str, Path] = {}
+        for p, sk in items:
+            if sk.error is not None or p.outcome != "normal" or "yield" not in sk.text:
+                continue
+            n += 1
+            buffered = p.decisions.get("frame.buffer is not None")
+            if buffered is False:
+                continue
+            tree = reparse(sk, entry, kind)
+            if tree is None:
+                continue
+            ys = [x for x in _own_level(tree) if isinstance(x, (ast.Yield, ast.YieldFrom))]
+            if ys:
+                txt = ast.unparse(ys[0])[:70]
+                bad.setdefault(txt, p)
+        for txt, p in bad.items():
+            dec = "regardless of frame.buffer" if p.decisions.get("frame.buffer is not None") is None else "with a buffered frame"
+            norm = "yield from <included template body>" if "_body_stream" in txt else txt
+            ctx.bad(f"compiler:CodeGenerator.{entry}", f"yields {dec}: {norm}",
+                    f"{entry} emits `{txt}` {dec} [{short_flags(p, 5)}]: inside a macro, set block, filter block or call block the text is yielded out of the buffered function (the macro returns a generator object / the text is lost)",
+                    "src/jinja2/compiler.py")
+        if not bad:
+            ctx.ok(entry)
+    ctx.floor("yielding skeletons", n, 50)
+
+
+# ---------------------------------------------------------------------------- C04
+def c04_block_rules(ctx: Ctx) -> None:
+    ctx.rule("R1", "visit_Block: on every path the block function is called as context.blocks[name][0](<ctx>) where <ctx> is the derived context exactly when the block is scoped; the required check precedes the call; after a known top-level extends nothing is emitted, after a possible extends the call is guarded by `parent_template is None`")
+    res = get_paths(ctx, ["visit_Block"])
+    n = 0
+    for p, sk in res["visit_Block"]:
+        if p.outcome != "normal":
+            continue
+        n += 1
+        d = p.decisions
+        known = d.get("frame.toplevel") and d.get("self.has_known_extends")
+        if known:
+            ctx.check(not sk.text.strip(), f"known-extends:{n}", "compiler:CodeGenerator.visit_Block", "emission after known extends", "a top-level block of a child template with a known extends must emit nothing", "src/jinja2/compiler.py")
+            continue
+        tree = reparse(sk, "visit_Block", "stmt")
+        if tree is None:
+            continue
+        calls = [c for c in ast.walk(tree) if isinstance(c, ast.Call) and ast.unparse(c.func).startswith("context.blocks[") and ast.unparse(c.func).endswith("[0]")]
+        ok = len(calls) == 1
+        arg = ast.unparse(calls[0].args[0]) if ok and calls[0].args else ""
+        scoped = bool(d.get("node.scoped"))
+        derived = ".derived(" in arg
+        ctx.check(ok and derived == scoped, f"ctx-arg:{n}", "compiler:CodeGenerator.visit_Block", f"scoped={scoped}: block called with `{arg[:30]}`",
+                  f"with node.scoped={scoped} the block function is called with `{arg}` [{short_flags(p, 6)}]: a scoped block must receive the derived context (loop / with variables), an unscoped one the plain context - in every code path",
+                  "src/jinja2/compiler.py", detail={"flags": short_flags(p, 6), "skeleton": sk.text[:200]} if n % 7 == 0 else None)
+        req = bool(d.get("node.required"))
+        has_req = "Required block" in sk.text
+        ctx.check(req == has_req and (not has_req or sk.text.index("Required block") < sk.text.index("context.blocks[", sk.text.index("raise"))), f"required:{n}", "compiler:CodeGenerator.visit_Block", f"required={req}", "the required-block check must be emitted exactly for required blocks, before the block is called", "src/jinja2/compiler.py")
+        if d.get("frame.toplevel") and d.get("self.extends_so_far > 0"):
+            ctx.check(sk.text.lstrip().startswith("if parent_template is None:"), f"guard:{n}", "compiler:CodeGenerator.visit_Block", "top-level block after a possible extends", "a top-level block after a conditional extends must be guarded by `if parent_template is None:`", "src/jinja2/compiler.py")
+    ctx.floor("visit_Block paths", n, 20)
